@@ -2,6 +2,8 @@ import PsModel.Util.Sexp
 import PsModel.Util.Hex
 import PsModel.Model.C19
 import PsModel.Spec.C19
+import PsModel.Model.C19Kernel
+import PsModel.Spec.C19Kernel
 /-! line-protocol front end of the C19 model -/
 namespace PsModel.C19
 open PsModel
@@ -55,6 +57,208 @@ def runShell (reqs : List (Request × CellResult)) : String :=
       | .handled s' outs => go s' rest (("(" ++ " ".intercalate (outs.map showOut) ++ s!" count={s'.count})") :: acc)
   " ".intercalate (go {} reqs [])
 
+/-! ## round 4: greeting, wire messages, every message type, control, heartbeat, housekeeping, one connection -/
+
+def asciiOf (b : Bytes) : String := String.ofList (b.map Char.ofNat)
+
+def showSub : Sub → String
+  | .none => "-" | .busy => "busy" | .idle => "idle" | .ok => "ok" | .error => "error"
+  | .complete => "complete" | .incomplete n => s!"incomplete:{n}" | .invalid => "invalid"
+
+def showChan : Chan → String
+  | .shell => "shell" | .control => "control" | .iopub => "iopub" | .stdin => "stdin" | .hb => "hb"
+
+def chan? : String → Option Chan
+  | "shell" => some .shell | "control" => some .control | "iopub" => some .iopub | "stdin" => some .stdin | "hb" => some .hb
+  | _ => none
+
+def showKOut (o : KOut) : String :=
+  let c := match o.count with | some n => toString n | none => "-"
+  let p := match o.payload with | some n => toString n | none => "-"
+  s!"({showChan o.chan} {showParts o.idents} {asciiOf o.mtype} {showSub o.sub} {o.parent} {c} {p})"
+
+def showOuts (os : List KOut) : String := "[" ++ " ".intercalate (os.map showKOut) ++ "]"
+
+def res? : Sexp → CellResult
+  | .list [.atom "v", n] => match n.nat? with | some k => .value k | none => .none
+  | .list [.atom "e", n] => match n.nat? with | some k => .error k | none => .none
+  | _ => .none
+
+/-- parse outcome: `ok` | `(exc syntax eofish lineno)` with lineno = `na` | `none` | n -/
+def parse? : Sexp → Option ParseOutcome
+  | .atom "ok" => some .ok
+  | .list [.atom "exc", sy, eo, ln] => do
+    let a ← sy.bool?
+    let b ← eo.bool?
+    let l ← match ln with
+      | .atom "na" => some none
+      | .atom "none" => some (some none)
+      | x => x.nat? >>= fun n => some (some (some n))
+    pure (.exc a b l)
+  | _ => none
+
+def hexOf? (x : Sexp) : Option Bytes := x.str? >>= Hex.toBytes
+
+/-- info: (hid mtype-hex store cell res code-hex parse) -/
+def info? : Sexp → Option (Info × CellResult)
+  | .list [hd, mt, st, cell, res, code, pr] => do
+    let h ← hd.nat?
+    let m ← hexOf? mt
+    let s ← st.bool?
+    let c ← cell.nat?
+    let cd ← hexOf? code
+    let p ← parse? pr
+    pure ({ header := h, mtype := m, storeHistory := s, cell := c, code := cd, parse := p }, res? res)
+  | _ => none
+
+def catch? : Sexp → Option Bool
+  | .atom "cur" => some Current.catchAll
+  | x => x.bool?
+
+def validate? : Sexp → Option Bool
+  | .atom "cur" => some Current.validate
+  | x => x.bool?
+
+def showIsComplete : IsComplete → String
+  | .complete => "complete" | .incomplete n => s!"incomplete:{n}" | .invalid => "invalid" | .crash => "crash"
+
+/-- a session event: (chan kind idents info) with kind = ok | nodelim | short | badjson | badsig | nosig.  The wire message is
+built here in the shape the harness builds the real one: frames `[[k], [], [], []]` for event number k, MAC `[1]`. -/
+structure SEv where
+  ch : Chan
+  wire : List Bytes
+  info : Info
+  res : CellResult
+
+def sev? (k : Nat) : Sexp → Option SEv
+  | .list [.atom c, .atom kind, ids, inf] => do
+    let ch ← chan? c
+    let idents ← hexList? ids
+    let (i, r) ← info? inf
+    let frames : List Bytes := [[k], [], [], []]
+    let wire ← match kind with
+      | "ok" => some (idents ++ [Gen.DELIM, [1]] ++ frames)
+      | "nodelim" => some (idents ++ [[1]] ++ frames)
+      | "short" => some (idents ++ [Gen.DELIM, [1]] ++ frames.take 3)
+      | "nosig" => some (idents ++ [Gen.DELIM])
+      | "badjson" => some (idents ++ [Gen.DELIM, [1]] ++ [[k], [255], [], []])
+      | "badsig" => some (idents ++ [Gen.DELIM, [0]] ++ frames)
+      | "extra" => some (idents ++ [Gen.DELIM, [1]] ++ frames ++ [Gen.DELIM, [7]])
+      | _ => none
+    pure { ch := ch, wire := wire, info := i, res := r }
+  | _ => none
+
+def sevs? : Nat → List Sexp → Option (List SEv)
+  | _, [] => some []
+  | k, x :: xs => do
+    let e ← sev? k x
+    let rest ← sevs? (k + 1) xs
+    pure (e :: rest)
+
+def sessEnv (catchAll : Bool) (evs : List SEv) : Env :=
+  { sign := fun _ => [1]
+    jsonOk := fun f => f != [255]
+    info := fun frames => match evs[(frames.headD []).headD 0]? with
+      | some e => e.info
+      | none => { header := 0, mtype := [] }
+    run := fun c => match evs[c]? with          -- the cell id of event k is k
+      | some e => e.res
+      | none => .none
+    catchAll := catchAll }
+
+def runSess (catchAll : Bool) (evs : List SEv) : String :=
+  let E := sessEnv catchAll evs
+  let tr := trace E {} (evs.map fun e => (e.ch, e.wire))
+  " ".intercalate (tr.map fun t => s!"{showOuts t.outs} up={if t.after.up then 1 else 0} n={t.after.shutdowns} count={t.after.k.count}")
+
+def hkEv? : Sexp → Option SessEv
+  | .atom "stdout" => some (.hk .stdout) | .atom "handshake" => some (.hk .handshake)
+  | .atom "register" => some (.hk .register) | .atom "unregister" => some (.hk .unregister)
+  | .atom "shutdown" => some (.hk .shutdown) | .atom "external" => some .external
+  | _ => none
+
+def showEnd : ConnEnd → String
+  | .eof => "eof" | .badGreeting => "badgreeting" | .badCommand => "badcommand" | .crashed => "crashed"
+  | .badMessage .noDelim => "bad:nodelim" | .badMessage .index => "bad:index" | .badMessage .json => "bad:json"
+  | .badMessage .sig => "bad:sig"
+
+def pairs? {α} (f : Sexp → Option α) : Sexp → Option (List (List Bytes × α))
+  | .list xs => xs.mapM fun x => match x with
+    | .list [k, v] => do let kk ← hexList? k; let vv ← f v; pure (kk, vv)
+    | _ => none
+  | _ => none
+
+def lookupL {α} (k : List Bytes) : List (List Bytes × α) → Option α
+  | [] => none
+  | (a, b) :: r => if a = k then some b else lookupL k r
+
+def handleK (x : Sexp) : Option String :=
+  match x with
+  | .list [.atom "hs", v, ty, cs] => do
+    let vv ← validate? v
+    let t ← hexOf? ty
+    let chunks ← hexList? cs
+    let r := handshake vv t chunks
+    pure (match r.status with
+      | .ok => s!"ok {Hex.ofBytes r.written} {Hex.ofBytes r.rest.flatten}"
+      | .eof => s!"eof {Hex.ofBytes r.written}"
+      | .bad => s!"bad {Hex.ofBytes r.written}")
+  | .list [.atom "des", ws, oks, sigs] => do
+    let wire ← hexList? ws
+    let okl ← hexList? oks
+    let sl ← hexList? sigs
+    let sign : List Bytes → Bytes := fun fr => sl.getD (wire.length - fr.length) [256]
+    pure (match deserialize sign (fun f => okl.contains f) wire with
+      | .ok (ids, frames) => s!"ok {showParts ids} {showParts frames}"
+      | .error .noDelim => "err nodelim" | .error .index => "err index"
+      | .error .json => "err json" | .error .sig => "err sig")
+  | .list [.atom "ser", ids, frames, sg] => do
+    let i ← hexList? ids
+    let f ← hexList? frames
+    let s ← hexOf? sg
+    pure ("ok " ++ showParts (serialize (fun _ => s) i f))
+  | .list [.atom "isc", c, code, pr] => do
+    let cc ← catch? c
+    let cd ← hexOf? code
+    let p ← parse? pr
+    pure (showIsComplete (isComplete cc cd p) ++ (if lastIndent cd = specIndent cd then "" else " SPEC-MISMATCH"))
+  | .list [.atom "croot", code] => do
+    let cd ← hexOf? code
+    pure ("ok " ++ Hex.ofBytes (complRoot cd))
+  | .list [.atom "hb", cs] => do
+    let chunks ← hexList? cs
+    pure (match hbEcho chunks with
+      | .ok (m, rest) => s!"ok {Hex.ofBytes m} {Hex.ofBytes rest.flatten}"
+      | .error e => showErr e)
+  | .list [.atom "sess", c, .list evs] => do
+    let cc ← catch? c
+    let es ← sevs? 0 evs
+    pure (runSess cc es)
+  | .list [.atom "hk", .list evs] => do
+    let es ← evs.mapM hkEv?
+    let f := sessRun {} es
+    pure s!"up={if f.up then 1 else 0} n={f.shutdowns} cnt={f.taskCnt} max={f.taskCntMax} stdout={f.stdoutSent}"
+  | .list [.atom "conn", v, c, cs, oks, sigtab, infos] => do
+    let vv ← validate? v
+    let cc ← catch? c
+    let chunks ← hexList? cs
+    let okl ← hexList? oks
+    let st ← pairs? hexOf? sigtab
+    let inf ← pairs? info? infos
+    let E : Env :=
+      { sign := fun fr => (lookupL fr st).getD [256]
+        jsonOk := fun f => okl.contains f
+        info := fun fr => match lookupL [fr.headD [], fr.getD 3 []] inf with
+          | some (i, _) => i
+          | none => { header := 0, mtype := [] }
+        run := fun c => match inf[c]? with
+          | some (_, (_, r)) => r
+          | none => .none
+        catchAll := cc }
+    let r := shellConn E vv {} chunks
+    pure s!"{Hex.ofBytes r.1} {" ".intercalate (r.2.2.1.map showOuts)} end={showEnd r.2.2.2} count={r.2.1.count}"
+  | _ => none
+
 def handle (x : Sexp) : String :=
   match x with
   | .list [.atom "enc", ps] =>
@@ -90,6 +294,6 @@ def handle (x : Sexp) : String :=
       | some (ids, sig, frames) => s!"ok {showParts ids} {Hex.ofBytes sig} {showParts frames}"
       | none => "err nodelim"
     | none => "err parse"
-  | _ => "err bad-command"
+  | _ => (handleK x).getD "err bad-command"
 
 end PsModel.C19
